@@ -315,3 +315,28 @@ theorem C06_actions_exact_after_any_history (rb : Nat) (s0 : State) (hk : KeysNo
   · exact ⟨c, hc, (expire2_exact c h (hall c hc)).mpr h2, h1⟩
 
 end Hostd.Chain
+
+namespace Hostd.Chain
+
+/-- **C01 in closed form.**  After any well-formed history the reported status (a rejected contract read as
+unconfirmed) is `specStatus` of the resulting best chain — a fold over the chain's events that mentions
+neither the store nor the order in which blocks were connected and disconnected. -/
+theorem C01_status_closed_form {c0 : Contract} (rb : Nat) (hf : Fresh c0) (ops : List HOp) (hwf : WFops c0 [] ops) :
+    ∃ c', runH rb c0 ops = .ok c' ∧ clsOf c'.status = specStatus (finalStk [] ops) := by
+  obtain ⟨c', X', hrun, hspec, hg, hn⟩ := C01_best_chain_fresh rb hf ops hwf
+  obtain ⟨hst, _⟩ := specTop_status hf _ X' (finalStk_wf rb hf ops hwf) hspec
+  refine ⟨c', hrun, ?_⟩
+  have h2 : clsOf c'.status = clsOf X'.status := by simpa [norm] using congrArg Contract.status hn
+  rw [h2, ← hst]
+  have := hg.not_rejected
+  cases hx : X'.status <;> simp_all [clsOf]
+
+/-- two histories that end on the same best chain report the same status -/
+theorem C01_status_path_independent {c0 : Contract} (rb : Nat) (hf : Fresh c0) (ops₁ ops₂ : List HOp)
+    (h₁ : WFops c0 [] ops₁) (h₂ : WFops c0 [] ops₂) (hsame : finalStk [] ops₁ = finalStk [] ops₂) :
+    ∃ c₁ c₂, runH rb c0 ops₁ = .ok c₁ ∧ runH rb c0 ops₂ = .ok c₂ ∧ clsOf c₁.status = clsOf c₂.status := by
+  obtain ⟨c₁, hr₁, hs₁⟩ := C01_status_closed_form rb hf ops₁ h₁
+  obtain ⟨c₂, hr₂, hs₂⟩ := C01_status_closed_form rb hf ops₂ h₂
+  exact ⟨c₁, c₂, hr₁, hr₂, by rw [hs₁, hs₂, hsame]⟩
+
+end Hostd.Chain
